@@ -458,6 +458,11 @@ def run(pid, tier, seed, replay=None):
         data_plane(chk, pid, thorough, seed, rnd)
     if pid == 'C04':
         timer_path(chk, pid, thorough, rnd)
+    if pid == 'C03':
+        # worker scarcity: released units that wait in the farm for a worker, composed with the life cycle (spec/System.tla)
+        from checks import life
+
+        life.scarcity(chk, pid, thorough, rnd)
     chk.counters.update(
         transitions_of_gen_instance=total_transitions,
         transitions_replayed=len(scheds),
